@@ -314,7 +314,7 @@ def gen_cases(tier, seed):
     n = 8000 if tier == "quick" else 80000
     per = 50
     for i in range(n // per):
-        yield {"kind": "batch", "seed": seed, "index": i, "n": per, "depth": 3 if tier == "quick" else 4}
+        yield {"kind": "batch", "seed": seed, "index": i, "n": per, "depth": (4 if i % 4 == 3 else 3) if tier == "quick" else 4}
 
 
 def run_case(case):
